@@ -549,6 +549,15 @@ impl<'a> GeneratorState<'a> {
         Ok(())
     }
 
+    // STX and STY leave N and Z alone: after such a store, what the flags were known to say
+    // about a memory operand may no longer be true (the operand may be the one just overwritten)
+    pub(crate) fn forget_memory_flags(&mut self) {
+        match self.flags {
+            FlagsState::A | FlagsState::X | FlagsState::Y | FlagsState::Unknown => (),
+            _ => self.flags = FlagsState::Unknown,
+        }
+    }
+
     pub(crate) fn label(&mut self, l: &str) -> Result<(), Error> {
         if let Some(f) = &self.current_function {
             let code: &mut AssemblyCode = self.functions_code.get_mut(f).unwrap();
